@@ -206,3 +206,11 @@ contract(D + "immune_system.py::ImmuneSystem.record_canary_result", "C17", self_
                   "baselines-and-watchers-untouched": "len(self.tcells) == len(old(self).tcells) and len(self.profiles) == len(old(self).profiles) "
                                                       "and len(self.displays) == len(old(self).displays)"},
          xensures={"refused-only-when-unregistered": "agent_id not in old(self).displays and calls_to('.record_canary_result') == 0"})
+shape("ImmuneSystemR", displays="dict:str,obj:MHCDisplay", tcells="dict:str,obj:TCell", profiles="dict:str,obj:BaselineProfile", treg="obj:RegulatoryTCell",
+      window_size="int", min_observations="int")
+contract(D + "immune_system.py::ImmuneSystem.register_agent", "C17", self_type="ImmuneSystemR", params={"agent_id": "str"},
+         callbacks={"RegulatoryTCell.register_agent": {"returns": "any", "raises": ()}}, options={"opaque_ctor": ["MHCDisplay"]}, raises=[],
+         ghost_params={"q": "str"},
+         ensures={"display-created-for-the-named-agent": "agent_id in self.displays and calls_to('.register_agent') == 1",
+                  "other-agents-and-all-baselines-untouched": "implies(q != agent_id, (q in self.displays) == (q in old(self).displays)) and "
+                                                              "len(self.tcells) == len(old(self).tcells) and len(self.profiles) == len(old(self).profiles)"})
